@@ -48,3 +48,18 @@ def chained_docs(rng, prefix):
     doc_b = {'graphs': [{'id': 'b', 'meta': {}, 'nodes': [node(i) for i in b_ids],
                          'edges': [edge(shared, 10), edge(20, 10), edge(30, 20), edge(40, 20), edge(45, 30), edge(60, 45)]}]}
     return [doc_a, doc_b, doc_a]
+
+
+def slim_docs(prefix):
+    """document A declares every endpoint of its is_a edges; document B is a slim of A: some nodes are gone but the
+    edges touching them are still there (dangling).  State shared between loads (an id pool, a node cache) shows when B
+    is loaded before and after A."""
+    def node(i):
+        return {'id': PURL + '%s_%07d' % (prefix, i), 'lbl': 'term %d' % i, 'type': 'CLASS'}
+
+    def edge(a, b):
+        return {'sub': PURL + '%s_%07d' % (prefix, a), 'pred': 'is_a', 'obj': PURL + '%s_%07d' % (prefix, b)}
+    edges = [edge(2, 1), edge(3, 1), edge(4, 2), edge(4, 3), edge(5, 4), edge(6, 1), edge(7, 6)]
+    doc_a = {'graphs': [{'id': 'a', 'meta': {}, 'nodes': [node(i) for i in (1, 2, 3, 4, 5, 6, 7)], 'edges': edges}]}
+    doc_b = {'graphs': [{'id': 'b', 'meta': {}, 'nodes': [node(i) for i in (1, 2, 4, 5)], 'edges': edges}]}
+    return [doc_a, doc_b]
